@@ -316,7 +316,8 @@ ADDENDA = {
            "9..80 elements.",
     "C17": "23 parser_method! pattern kinds (9 literal-valued, 14 non-literal incl. range patterns that start with a "
            "literal and fragments forwarded by a user macro_rules!), &mut references and the generic type form of "
-           "destructure!.",
+           "destructure!.  Thorough: the DSL grammar has all 13 adapters (chains of length <= 2, length 3 over six of "
+           "them) and all 13 consumers (13 000 programs).",
     "C18": "The macro forms are additionally applied to every state of a Parser.tla graph and compared on remainder, "
            "offsets and direction.",
     "C19": "min!/max!/_by/_by_key on every primitive type with four anchor values per type; every option / result macro "
